@@ -565,7 +565,7 @@ class BWalk(omp.Region):
         pre_env = dict(env)
         self.havoc(env, names - {iv})
         self.bump(arrs)
-        ivkey = ("iv", iv, next(_loop_id))
+        ivkey = ("iv", iv, next(omp._fresh))
         ivatom = Poly.atom(ivkey)
         env[iv] = ivatom
         rng = None
@@ -821,7 +821,7 @@ class Prover(object):
             facts = plain + [f for f in facts if f.req is not None and self.prove(f.req, plain, 2) is not None]
         lbs = self.single_bounds(facts)
         rel = [f for f in facts if not f.p.is_const()]
-        seen = set()
+        seen = {}
 
         def go(q, d, used):
             if self.nonneg_by_lb(q, lbs):
@@ -829,11 +829,19 @@ class Prover(object):
             if d == 0:
                 return None
             key = q.key()
-            if (key, d) in seen:
+            if seen.get(key, -1) >= d:
                 return None
-            seen.add((key, d))
+            seen[key] = d
+            # back-substitution: eliminate the most recently created atom that makes q troublesome (an unknown / loop variable /
+            # load is related by its facts to atoms created before it); the steps of a proof commute, so one order is enough
+            target = first_trouble(q, self, lbs)
+            if target is None:
+                return None
+            atom_, mono = target
             for f in rel:
-                for m in multipliers(q, f.p, self, lbs):
+                if atom_ is not None and atom_ not in f.p.atoms():
+                    continue
+                for m in multipliers(q, f.p, self, lbs, mono, atom_):
                     r = go(q - f.p * m, d - 1, used + [f])
                     if r is not None:
                         return r
@@ -853,19 +861,54 @@ def mono_div(m1, m2):
     return tuple(sorted(d.items(), key=lambda x: akey(x[0])))
 
 
-def multipliers(q, f, prover, lbs):
-    """candidate non-negative multipliers m (Poly) such that q - m*f cancels a troublesome monomial of q: one with a negative
-    coefficient, or one containing an atom that has no lower bound"""
+def atom_age(a):
+    """creation index of an atom: fresh unknowns and loop variables carry one; a load / operator atom is as young as the youngest
+    atom inside its key; plain symbols (parameters) are the oldest"""
+    if isinstance(a, tuple):
+        if a and a[0] in ("unk", "iv") and isinstance(a[-1], int):
+            return a[-1]
+        best = 0
+        for x in a:
+            if isinstance(x, tuple):
+                best = max(best, atom_age(x))
+        return best + 0.5 if best else 0.25
+    return 0
+
+
+def first_trouble(q, prover, lbs):
+    """(atom, monomial): the youngest atom occurring in a troublesome monomial of q (negative coefficient, or an atom without
+    lower bound) and one such monomial containing it; (None, ()) for a lone negative constant; None if nothing is troublesome"""
+    best = None
+    for mq, cq in q.t.items():
+        if not mq:
+            continue
+        if cq < 0 or any(prover.atom_lb(a, lbs) is None for a, pw in mq):
+            for a, pw in mq:
+                k = (atom_age(a), repr(a), repr(mq))
+                if best is None or k > best[0]:
+                    best = (k, a, mq)
+    if best is not None:
+        return best[1], best[2]
+    if q.const_value() < 0:
+        return None, ()
+    return None
+
+
+def multipliers(q, f, prover, lbs, target="all", atom_=None):
+    """candidate non-negative multipliers m (Poly) such that q - m*f cancels the troublesome monomial `target` of q through a
+    monomial of f that contains `atom_` (() = a lone negative constant, cancelled by a fact with a negative constant)"""
     out = []
     seen = set()
-    cq0, cf0 = q.const_value(), f.const_value()
-    if cq0 < 0 and cf0 < 0:
-        # a negative constant can only be absorbed by a fact that carries one
-        for m in (Poly.const(1), Poly.const(Fraction(cq0) / Fraction(cf0))):
-            if m.key() not in seen:
-                seen.add(m.key())
-                out.append(m)
-    for mq, cq in q.t.items():
+    if target == ():
+        cq0, cf0 = q.const_value(), f.const_value()
+        if cq0 < 0 and cf0 < 0:
+            for m in (Poly.const(1), Poly.const(Fraction(cq0) / Fraction(cf0))):
+                if m.key() not in seen:
+                    seen.add(m.key())
+                    out.append(m)
+        return out
+    items = q.t.items() if target == "all" else [(target, q.t[target])]
+    for mq, cq in items:
         if not mq:
             continue
         unbounded = any(prover.atom_lb(a, lbs) is None for a, pw in mq)
@@ -873,6 +916,8 @@ def multipliers(q, f, prover, lbs):
             continue
         for mf, cf_ in f.t.items():
             if not mf or (cf_ > 0) != (cq > 0):
+                continue
+            if atom_ is not None and not any(a == atom_ for a, pw in mf):
                 continue
             quo = mono_div(mq, mf)
             if quo is None:
